@@ -34,8 +34,8 @@ ASSUMPTIONS = [
 SHARDS = {"quick": 16, "thorough": 16}
 HASHSEEDS = ["0", "1", "random", "4242"]
 MINIMUMS = {
-    "quick": {"distinct_nontrivial": 400, "ids_compared": 50000, "sealed_cyclic_orders": 400, "pinned_checked": 100, "cross_keys_compared": 40, "submit_variants": 100},
-    "thorough": {"distinct_nontrivial": 10000, "ids_compared": 1500000, "sealed_cyclic_orders": 5000, "pinned_checked": 100, "cross_keys_compared": 40, "submit_variants": 3000},
+    "quick": {"distinct_nontrivial": 400, "ids_compared": 50000, "sealed_cyclic_orders": 400, "pinned_checked": 100, "cross_keys_compared": 40, "submit_variants": 100, "modify_histories": 500},
+    "thorough": {"distinct_nontrivial": 10000, "ids_compared": 1500000, "sealed_cyclic_orders": 5000, "pinned_checked": 100, "cross_keys_compared": 40, "submit_variants": 3000, "modify_histories": 15000},
 }
 N = {"quick": 1600, "thorough": 48000}
 TIMEOUT = {"quick": 900, "thorough": 10800}
@@ -116,6 +116,24 @@ def explore(ctx, recipe, rng, other=None):
         compare(ctx, recipe, b, ref, order, "request-order/second-pass", sh)
 
     run_history(ctx, recipe, sh, ref, "request-order", v2)
+
+    # V8 identifiers requested, then an unsealed node is modified: the next request must see the new content
+    cands = [(nid, pn) for nid in nids if not sh.nodes[nid].implicit and not sh.nodes[nid].sealed for pn in ("i", "v", "x", "k") if pn in sh.nodes[nid].values]
+    if cands:
+        nid8, pn8 = rng.choice(cands)
+        newv = rng.choice([31337, 31338, -7])
+        r8 = {"steps": recipe["steps"] + [["set", nid8, pn8, newv]], "root": root, "kind": recipe["kind"]}
+        sh8, ref8 = idlib.shadow_of(r8)
+
+        def v8(b):
+            order = real_nids(b)
+            rng.shuffle(order)
+            compare(ctx, recipe, b, ref, order, "request-modify-request/before", sh)
+            builder.step(["set", nid8, pn8, newv], b)
+            ctx.count("modify_histories")
+            compare(ctx, r8, b, ref8, order, "request-modify-request", sh8)
+
+        run_history(ctx, recipe, sh, ref, "request-modify-request", v8)
 
     if not is_task:
         # V3 seal the root first, then any request order, twice
@@ -219,14 +237,20 @@ def worker(ctx):
                 ctx.crosscheck(f"common{i}", build.all_ids(b))
             except RecursionError:
                 pass
+            except Exception as e:
+                ctx.violation("history-raises", f"identifier request raised {e!r}", {"recipe": rec, "history": "common"})
         # M4 pinned corpus (split between the shards)
         pinned = json.loads(PINNED.read_text()) if PINNED.is_file() else []
         for i, entry in enumerate(pinned):
             if i % ctx.nshards != ctx.shard:
                 continue
             rec = entry["recipe"]
-            b = build.Builder().run(rec)
-            got = build.all_ids(b, list(entry["ids"]))
+            try:
+                b = build.Builder().run(rec)
+                got = build.all_ids(b, list(entry["ids"]))
+            except Exception as e:
+                ctx.violation("history-raises", f"pinned recipe {i}: identifier request raised {e!r}", {"recipe": rec, "history": "pinned"})
+                continue
             ctx.count("pinned_checked")
             for nid, (raw, full) in entry["ids"].items():
                 if list(got[nid]) != [raw, full]:
